@@ -160,13 +160,17 @@ def evaluate_case(case):
         project = inset | outset
     else:
         project = outset
+    use_shown = False
+    if rel == "out" and case["outp"] == "auto":
+        from clingo.ast import ASTType as _T
+        use_shown = any(st.ast_type in (_T.ShowSignature, _T.ShowTerm) for st in prg)
     fact_preds = voc if case.get("facts_over") == "any" else (inset & voc)
     insts = case.get("instances") or make_instances(rng, fact_preds, text, case.get("n_inst", 4))
     rec["compared"] = 0
     rec["skipped"] = 0
     for inst in insts:
         try:
-            a = oracle.solve_text(src_text + "\n" + inst, project)
+            a = oracle.shown(src_text + "\n" + inst) if use_shown else oracle.solve_text(src_text + "\n" + inst, project)
         except oracle.Skip:
             rec["skipped"] += 1
             continue
@@ -175,7 +179,7 @@ def evaluate_case(case):
             rec["skipped"] += 1
             continue
         try:
-            b = oracle.solve_text(res_text + "\n" + inst, project)
+            b = oracle.shown(res_text + "\n" + inst) if use_shown else oracle.solve_text(res_text + "\n" + inst, project)
         except oracle.Skip as e:
             # the result grounds with 'operation undefined' where the source did not, or blows up: a difference
             if str(e) == "undefined":
